@@ -10,6 +10,12 @@ def verdict (agree : Bool) (bad : Option String) (nt : Bool) (br : String) (note
 def leak (fs : List (String × String)) : String :=
   s!"DISAGREE BAD:goroutines-still-blocked-after-shutdown:{getD fs "msg" "?"} nt=0 br=leak "
 
+/-- the cluster-invariant monitor of the simulator (conclusions of C02_cluster_bounded,
+C08_cluster_left_is_left, address ownership, observed on the wire of the real cluster) -/
+def invBad (fs : List (String × String)) : Option String :=
+  let inv := getD fs "inv" "ok"
+  if inv == "ok" || inv == "enc" then none else some s!"cluster-invariant:{inv}"
+
 def handleC04 (kind : String) (fs : List (String × String)) : String :=
   match kind with
   | "leak" => leak fs
@@ -17,6 +23,7 @@ def handleC04 (kind : String) (fs : List (String × String)) : String :=
       let bad := getD fs "bad" "-"
       let conv := getD fs "converged" "0" == "1"
       let ops := (getNat fs "ops").getD 0
+      let bad := match invBad fs with | some b => if bad == "-" then b else bad | none => bad
       -- `converged` is informational: an operation issued just before the horizon may not have spread yet
       verdict (bad == "-") (if bad == "-" then none else some bad) (ops ≥ 3)
         s!"healthy-n{min ((getNat fs "n").getD 0 / 4) 3}-leavers{min ((getNat fs "leavers").getD 0) 2}"
@@ -31,11 +38,12 @@ def handleC05 (kind : String) (fs : List (String × String)) : String :=
       let cls := getD fs "class" "?"
       let detail := getD fs "detail" "-"
       let bad : Option String :=
-        if !connected then none   -- the property is conditioned on connectivity when faults stop
+        if (invBad fs).isSome then invBad fs
+        else if !connected then none   -- the property is conditioned on connectivity when faults stop
         else if cls == "converged" then none
         else if cls == "stable-split" then some s!"final-state-stable-split:{detail}"
         else some s!"final-state-not-converged:{detail}"
-      verdict (cls != "not-converged" || !connected) bad (connected && (getNat fs "departed").getD 0 + (getNat fs "restarts").getD 0 ≥ 1)
+      verdict ((cls != "not-converged" || !connected) && (invBad fs).isNone) bad (connected && (getNat fs "departed").getD 0 + (getNat fs "restarts").getD 0 ≥ 1)
         s!"heal-{if connected then cls else "disconnected"}" s!"settled={getD fs "settledms" "-1"}ms"
   | _ => "PARSE kind"
 
